@@ -25,10 +25,11 @@ mod data {
     pub static mut SEEDS: [u64; 4] = [0; 4];
     pub static mut LAST: [BitBoard; 4] = [BitBoard::ZERO; 4];
 
-    /// the abstract filled table: any function of (piece, square, key); xor/shift only, so that it stays cheap
+    /// the abstract filled table: a function of (piece, square, key) that is injective in (square, key) for each piece and
+    /// kept as simple as possible for the solver (key < 2^12, square < 2^6)
     pub fn table(which: usize, sq: u8, key: usize) -> u64 {
         let s = unsafe { SEEDS };
-        s[which] ^ ((key as u64) << 5) ^ ((key as u64) >> 3 & s[2]) ^ ((sq as u64) << 52) ^ (((sq as u64) << 20) & s[3])
+        s[which] ^ (key as u64) ^ ((sq as u64) << 52)
     }
 
     pub struct Cells(pub usize, pub bool); // (piece, magics?)
